@@ -10,9 +10,10 @@
      uri_ok s    = true  iff  url.ParseRequestURI(s) succeeds              (service endpoints)
      uri_parse s = Some t iff url.Parse(s) succeeds and t = its String()   (also-known-as URIs)
 
-   The validator itself can PANIC: validateJSONPatches dereferences the "path" member of an operation
-   without a nil check, so  {"op":"add","path":null}  is a nil pointer dereference.  Outcomes are
-   therefore three-valued ([vout]); [validate_patch] = "accepted". *)
+   Outcomes are three-valued ([vout]) because the validator used to panic on  {"op":"add","path":null}
+   (nil dereference in validateJSONPatches); since commit cb19e9e it returns an error and [VPanic] is
+   no longer produced by the model.  It stays in the type so that the correspondence check would notice
+   a panic of the real validator.  [validate_patch] = "accepted". *)
 From Coq Require Import String List NArith ZArith Bool.
 From Coq.Strings Require Import Byte.
 From SV Require Import Base.Bytes Json.Ast Doc.JsonPatch.
@@ -152,11 +153,12 @@ Variable uri_parse : bytes -> option bytes.    (* url.Parse + String() *)
 (* validateURI *)
 Definition validate_uri (u : bytes) : bool := negb (Nat.eqb (length u) 0) && uri_ok u.
 
-(* validateServiceEndpointObjects: returns on the FIRST string element; later elements are never looked at *)
+(* validateServiceEndpointObjects (since commit e1e5aec): EVERY string element is validated; elements
+   that are not strings are skipped *)
 Fixpoint endpoint_objects_ok (l : list json) : bool :=
   match l with
   | [] => true
-  | JStr u :: _ => validate_uri u
+  | JStr u :: r => validate_uri u && endpoint_objects_ok r
   | _ :: r => endpoint_objects_ok r
   end.
 
@@ -201,15 +203,26 @@ Fixpoint has_prefix (p s : bytes) : bool :=
 Definition protected_path (path : bytes) : bool :=
   has_prefix (B "/service") path || has_prefix (B "/publicKey") path.
 
-(* one operation of the decoded patch; only the "path" member is looked at ("from" is not) *)
+(* validateJSONPointer (commits cb19e9e, 4fc3d15): a string; empty or starting with "/"; not starting
+   with "/service" or "/publicKey" (a string prefix test: "/services", "/serviceX" are blocked too).
+   null and non-strings are errors (no nil dereference any more). *)
+Definition pointer_ok (j : json) : bool :=
+  match j with
+  | JStr s =>
+    (match s with [] => true | c :: _ => Byte.eqb c "/"%byte end) && negb (protected_path s)
+  | _ => false
+  end.
+
+(* one operation of the decoded patch: "path" must be present and valid; "from" is validated whenever
+   the member is present (whatever the op kind) *)
 Definition jsonpatch_op_out (o : json) : vout :=
   match o with
   | JObj m =>
     match jlast (B "path") m with
     | None => VReject                      (* path not found *)
-    | Some JNull => VPanic                 (* *pathMsg with pathMsg == nil *)
-    | Some (JStr s) => vbool (negb (protected_path s))
-    | Some _ => VReject                    (* invalid path *)
+    | Some pj =>
+      vbool (pointer_ok pj
+             && match jlast (B "from") m with None => true | Some fj => pointer_ok fj end)
     end
   | _ => VReject                           (* null element: nil map, path not found *)
   end.
@@ -359,9 +372,8 @@ Definition service_endpoints (m : list (bytes * json)) : list bytes :=
   | _ => []
   end.
 
-(* the endpoints the code actually checks: a string endpoint, or the FIRST string of an array *)
-Definition service_endpoints_checked (m : list (bytes * json)) : list bytes :=
-  match service_endpoints m with [] => [] | u :: _ => [u] end.
+(* the endpoints the code checks: since commit e1e5aec all of them *)
+Definition service_endpoints_checked (m : list (bytes * json)) : list bytes := service_endpoints m.
 
 (* key-material members present in a key entry *)
 Definition key_material_count (m : list (bytes * json)) : nat :=
@@ -388,8 +400,8 @@ Example ex_dup_keys_rejected :
     (JObj [(B "action", JStr (B "add-public-keys")); (B "publicKeys", JArr [ex_key; ex_key])]) = false.
 Proof. reflexivity. Qed.
 
-Example ex_null_path_panics :
+Example ex_null_path_rejected :
   validate_patch_out (fun _ => true) (fun u => Some u)
     (JObj [(B "action", JStr (B "ietf-json-patch"));
-           (B "patches", JArr [JObj [(B "op", JStr (B "add")); (B "path", JNull)]])]) = VPanic.
+           (B "patches", JArr [JObj [(B "op", JStr (B "add")); (B "path", JNull)]])]) = VReject.
 Proof. reflexivity. Qed.
